@@ -25,8 +25,8 @@ done
 for d in seeded/*/; do
   id=$(basename "$d" | cut -c1-3)
   case "$(basename $d)" in
-    C05-trio-pool-timeout-cancel-called) continue;;
-    C01-h2-flush-acks-before-dispatching-read-events) continue;;  # not reported: hidden behind the open finding F-C07 (see its meta.json)  # neutralised by repo fix bcb0a82 (see its meta.json)
+    C05-trio-pool-timeout-cancel-called) continue;;  # neutralised by repo fix bcb0a82 (see its meta.json)
+    C01-h2-flush-acks-before-dispatching-read-events) continue;;  # not reported: hidden behind the open finding F-C07 (see its meta.json)
   esac
   timeout 1500 tools/mutant.sh "$d/patch.diff" $id | sed "s#MUTANT patch.diff#SEED $(basename $d)#" | cut -c1-200
 done
